@@ -120,9 +120,14 @@ def realisations(kind, d):
         rule("times: -1 (body)", "pattern:\n- push\n- call:\n    times: -1\n")
         rule("times min -1", "pattern:\n- push\n- call:\n    times:\n      min: -1\n      max: 2\n")
         rule("times -2 (sibling)", "pattern:\n- push\n- $or:\n  - call\n  times: -2\n")
+        rule("times min -1 max 0", "pattern:\n- push\n- call:\n    times:\n      min: -1\n      max: 0\n")
     elif kind == "times_inverted":
         rule("min 3 max 1", "pattern:\n- push\n- call:\n    times:\n      min: 3\n      max: 1\n")
         rule("min 2 max 1 (sibling)", "pattern:\n- push\n- $and:\n  - call\n  times:\n    min: 2\n    max: 1\n")
+        # the swapped bounds of a valid {min: 0, max: 3}; max exactly 0
+        rule("min 3 max 0", "pattern:\n- push\n- call:\n    times:\n      min: 3\n      max: 0\n")
+        rule("min 1 max 0 (sibling)", "pattern:\n- push\n- $or:\n  - call\n  times:\n    min: 1\n    max: 0\n")
+        rule("max 0 written first", "pattern:\n- push\n- call:\n    times:\n      max: 0\n      min: 2\n")
     elif kind == "input_missing":
         inp("input does not exist", path=os.path.join(d, "no-such-input"))
     elif kind == "input_is_dir":
